@@ -1338,7 +1338,7 @@ def check_C01(ctx):
 
 
 # ---------------------------------------------------------------- priority queue (C06, C02)
-PQ_DEPS = {"Base.v", "PQueue.v", "PQueueProofs.v"}
+PQ_DEPS = {"Base.v", "PQueue.v", "PQueueProofs.v", "ContainerQueue.v"}
 
 
 def pq_check(ctx, sigs):
